@@ -397,7 +397,11 @@ func (c *RootConfig) Initialize(ctx context.Context) error {
 		}
 		parentPkgConfig := c.Packages[recursivePackageName]
 		for _, subpkg := range subpkgs {
-			if parentPkgConfig.Config.ShouldExcludeSubpkg(subpkg) {
+			excluded, err := parentPkgConfig.Config.ShouldExcludeSubpkg(subpkg)
+			if err != nil {
+				return fmt.Errorf("evaluating `exclude-subpkg-regex` of %s: %w", recursivePackageName, err)
+			}
+			if excluded {
 				pkgLog.Debug().Msg("package was marked for exclusion")
 				continue
 			}
@@ -616,17 +620,17 @@ func (c *Config) FilePath() *pathlib.Path {
 	return pathlib.NewPath(*c.Dir).Join(*c.FileName).Clean()
 }
 
-func (c *Config) ShouldExcludeSubpkg(pkgPath string) bool {
+func (c *Config) ShouldExcludeSubpkg(pkgPath string) (bool, error) {
 	for _, regex := range c.ExcludeSubpkgRegex {
 		matched, err := regexp.MatchString(regex, pkgPath)
 		if err != nil {
-			panic(err)
+			return false, err
 		}
 		if matched {
-			return true
+			return true, nil
 		}
 	}
-	return false
+	return false, nil
 }
 
 func IsAutoGenerated(path *pathlib.Path) (bool, error) {
